@@ -240,7 +240,7 @@ func (c *XAConn) keepIfNecessary() {
 }
 
 func (c *XAConn) releaseIfNecessary() {
-	if c.ShouldBeHeld() && c.xaBranchXid.String() != "" {
+	if c.ShouldBeHeld() && c.xaBranchXid != nil && c.xaBranchXid.String() != "" {
 		if c.isConnKept {
 			c.res.Release(c.xaBranchXid.String())
 			c.isConnKept = false
@@ -351,6 +351,8 @@ func (c *XAConn) Commit(ctx context.Context) error {
 	}
 	// phase one of this branch is over: the connection must be usable for the next branch
 	c.cleanXABranchContext()
+	// a kept connection is held for phase two from now on (xaTwoPhaseTimeoutChecker counts from here)
+	c.prepareTime = time.Now()
 	return nil
 }
 
